@@ -1,16 +1,38 @@
-/* C09: chacha20_block == RFC 8439 block function for every key, nonce and counter (constant loops fully unwound) */
+/* C09: chacha20_block == RFC 8439 block function for every key, nonce and counter (constant loops fully unwound).
+   h_block_frame: the function under its contract through goto-instrument --dfcc --enforce-contract: assigns clause (frame)
+                  and memory safety for every key, nonce and counter.  The write-set instrumented formula of the functional
+                  ensures is not decided by any installed back end within 10 minutes (measured: MiniSat, CaDiCaL, cvc5), so the
+                  ghost counter is assumed different from the actual one here (ensures vacuous) and the functional clause is
+                  discharged by
+   h_block_plain: assume CONTRACT_REQUIRES (the verbatim requires text of contracts/chacha20.spec, emitted as a macro by the
+                  lowering), call the lowered function, assert CONTRACT_ENSURES (verbatim ensures text) and byte-for-byte
+                  equality with the independent RFC 8439 reference -- the same obligation as --enforce-contract minus the
+                  write-set instrumentation. */
 #include "chacha20.c"
 #include "rfc8439.h"
 #include "common.h"
-void h_block(void)
+void h_block_frame(void)
+{
+  crypto__Key in_key; crypto__Nonce in_nonce; uint32_t in_counter; arr_u8_64 out;
+  __CPROVER_assume(__g_I < 64);
+  __CPROVER_assume(__g_C != in_counter);   /* functional ensures is h_block_plain's job; frame and safety do not depend on ghosts */
+  crypto__chacha20_block(&in_key, &in_nonce, in_counter, &out);
+  CANARY_POINT();
+}
+
+void h_block_plain(void)
 {
   crypto__Key in_key; crypto__Nonce in_nonce; uint32_t in_counter; arr_u8_64 out;
   uint8_t ref[64];
-  __CPROVER_assume(__g_I < 64);
-  __g_C = in_counter;
+  crypto__Key *key = &in_key; crypto__Nonce *nonce = &in_nonce; uint32_t counter = in_counter; arr_u8_64 *buffer = &out;
   rfc8439_block(in_key.bytes._, in_nonce.bytes._, in_counter, ref);
-  __CPROVER_assume(__g_K == ref[__g_I]);            /* definition of the ghost constant */
-  crypto__chacha20_block(&in_key, &in_nonce, in_counter, &out);
+  /* definition of the ghost constant: __g_K == RFC8439-block(key, nonce, __g_C)[__g_I].  Only the case __g_C == counter is
+     constrained (one reference computation); for __g_C != counter the ensures clause is vacuous and __g_K stays arbitrary. */
+  __CPROVER_assume(__g_I < 64);
+  __CPROVER_assume(__g_C == in_counter ==> __g_K == ref[__g_I]);
+  __CPROVER_assume(CONTRACT_REQUIRES_crypto__chacha20_block);
+  crypto__chacha20_block(key, nonce, counter, buffer);
+  __CPROVER_assert(CONTRACT_ENSURES_crypto__chacha20_block, "contract ensures of chacha20_block (verbatim clause text)");
   for (int i = 0; i < 64; i++) __CPROVER_assert(out._[i] == ref[i], "chacha20_block equals the RFC 8439 block function");
   CANARY_POINT();
 }
